@@ -132,10 +132,12 @@ type HashOptions struct {
 	ctagsPath        string
 	cTagsMustSucceed bool
 	largeFiles       []string
+	trigramMax       int
 }
 
 func (o *Options) HashOptions() HashOptions {
 	return HashOptions{
+		trigramMax:       o.TrigramMax,
 		sizeMax:          o.SizeMax,
 		disableCTags:     o.DisableCTags,
 		ctagsPath:        o.CTagsPath,
@@ -153,6 +155,13 @@ func (o *Options) GetHash() string {
 	hasher.Write(fmt.Appendf(nil, "%d", h.sizeMax))
 	hasher.Write(fmt.Appendf(nil, "%q", h.largeFiles))
 	hasher.Write(fmt.Appendf(nil, "%t", h.disableCTags))
+	// TrigramMax decides which documents are skipped as "too many trigrams",
+	// so an index built with another limit is stale. Only a non-default limit
+	// enters the hash: the hashes of all existing default-limit indexes stay
+	// valid.
+	if h.trigramMax != 0 && h.trigramMax != 20000 {
+		hasher.Write(fmt.Appendf(nil, "trigramMax=%d", h.trigramMax))
+	}
 
 	return fmt.Sprintf("%x", hasher.Sum(nil))
 }
